@@ -517,3 +517,49 @@ def bounded(ctx):
                                    "clause": "a site given with integer-typed coordinates has the same images as with float coordinates", "key": "integer_coordinates"})
     ctx.add_bounded("crystal.Crystal.unit_cell_atoms/bounded/integer_typed_coordinates", "sites (0,0,0), (1,0,0), (0,1,-1) given as int64 / int32 arrays in centred and primitive settings: atom count equals the "
                     "number of distinct images", ev2, ev2, fails2, rule="(setting, site, dtype)")
+
+    # an asymmetric unit with several hundred sites (index arrays must not be narrower than the site count): every returned atom is the image of the site it names under
+    # the operation it names, and every (site, operation) pair occurs once
+    from chmpy.crystal.symmetry_operation import SymmetryOperation as _SO
+    fails3, ev3 = [], 0
+    rng3 = np.random.default_rng(ctx.seed + 303)
+    for number, nsite in ((2, 300), (14, 270)):
+        sg = SpaceGroup(number)
+        big = UnitCell.from_lengths_and_angles([41.0, 43.0, 47.0], [1.45, 1.6, 1.5])
+        pos = rng3.uniform(0.01, 0.99, (nsite + 500, 3))
+        # keep only sites all of whose images are well separated (0.03 in every fractional coordinate, periodic) from every other image: nothing is to be merged
+        from scipy.spatial import cKDTree as _KD
+        imgs = np.vstack([s_.apply(pos) % 1.0 for s_ in sg.symmetry_operations])
+        owner = np.tile(np.arange(len(pos)), len(sg.symmetry_operations))
+        close_pairs = _KD(imgs, boxsize=1.0).query_pairs(0.06)
+        drop = {int(max(owner[a_], owner[b_])) for a_, b_ in close_pairs} | {int(owner[a_]) for a_, b_ in close_pairs if owner[a_] == owner[b_]}
+        pos = pos[[k for k in range(len(pos)) if k not in drop]][:nsite]
+        nsite = len(pos)
+        els = [Element[["C", "N", "O", "S", "Cl", "Fe", "H"][i % 7]] for i in range(nsite)]
+        try:
+            uc = Crystal(big, sg, AsymmetricUnit(els, pos, labels=[f"{e.symbol}{i}" for i, e in enumerate(els)])).unit_cell_atoms()
+            par, ops, fp = np.asarray(uc["asym_atom"]).astype(int), np.asarray(uc["symop"]).astype(int), np.asarray(uc["frac_pos"], dtype=float)
+            prob = None
+            if len(par) != nsite * len(sg.symmetry_operations) or len(set(zip(par.tolist(), ops.tolist()))) != len(par):
+                prob = {"atoms": int(len(par)), "distinct (site, operation) pairs": len(set(zip(par.tolist(), ops.tolist()))), "expected": nsite * len(sg.symmetry_operations)}
+            else:
+                for code in sorted(set(ops.tolist())):
+                    sel = ops == code
+                    if par[sel].max() >= nsite or par[sel].min() < 0:
+                        prob = {"parent_index_out_of_range": int(par[sel].max())}
+                        break
+                    img = _SO.from_integer_code(code).apply(pos[par[sel]])
+                    d = np.abs(fp[sel] - img % 1.0)
+                    d = np.minimum(d, 1 - d).max()
+                    wrong_el = np.asarray(uc["element"])[sel] != np.array([els[k].atomic_number for k in par[sel]])
+                    if d > 1e-9 or wrong_el.any():
+                        prob = {"operation": code, "max |frac_pos - op(site[asym_atom])| (mod 1)": float(d), "atoms_with_the_wrong_element_for_their_parent": int(wrong_el.sum())}
+                        break
+        except Exception as e:  # noqa
+            prob = {"exception": repr(e)[:200]}
+        ev3 += nsite
+        if prob:
+            fails3.append({"input": {"setting": str(number), "sites": nsite, "positions": f"default_rng({ctx.seed + 303}).uniform(0.01, 0.99), sites with images closer than 0.06 dropped"}, "observed": prob,
+                           "clause": "every unit-cell atom is the image of asymmetric-unit site asym_atom under operation symop, with that site's element", "key": "large_asymmetric_unit"})
+    ctx.add_bounded("crystal.Crystal.unit_cell_atoms/bounded/large_asymmetric_unit", "300 sites in P-1 and 270 sites in P2_1/c on general positions: parent index, generator and element of every returned atom", ev3, ev3, fails3, rule="sites")
+
